@@ -2,6 +2,7 @@
 
 from __future__ import annotations
 
+import inspect
 from typing import TYPE_CHECKING, Any
 
 from hypergraph.runners._shared.helpers import (
@@ -44,8 +45,9 @@ class SyncFunctionNodeExecutor:
         # Call the function
         result = node.func(**func_inputs)
 
-        # Handle generators - accumulate to list
-        if node.is_generator:
+        # Handle generators - accumulate to list (also a generator object returned by a
+        # plain function, as the async executor does)
+        if node.is_generator or inspect.isgenerator(result):
             result = list(result)
 
         return wrap_outputs(node, result)
